@@ -91,6 +91,7 @@ class C07(Check):
         terms = [77] if k.random() < 0.6 else [77, 1234]
         ntx = k.choice([1, 2, 3, 4, 5, 6, 8, 10])
         p_voice = k.choice([0.0, 0.2, 0.4])
+        hdr_pool = {} if k.random() < 0.4 else None  # the sender keeps ONE header object per format and brings it up to date for each packet
         ops = []
         for _ in range(ntx):
             term = w.choice(terms)
@@ -112,7 +113,7 @@ class C07(Check):
                 pair = conf and fmt == "data" and w.random() < 0.15  # a confirmed packet and, later, its retransmission (same addresses, N(S), payload; F = subsequent try)
                 try:
                     bursts, meta = air.generated_data_tx(w, rate, conf, n, pre, cc, sap, w.choice(["random", "random", "zero", "ff", "counter", "runs", "runs", "selfcrc", "tunnel"]), dst=term, fmt=fmt,
-                                                         retry=None if pair else False)
+                                                         retry=None if pair else False, hdr_pool=hdr_pool)
                 except Exception as e:  # the transmitter side of the system under test failed for a legal configuration: judged in execute()
                     ops.append({"kind": "data", "term": term, "ts": ts, "bursts": [], "gen_error": f"{type(e).__name__}: {e}"[:300],
                                 "meta": {"rate": rate, "conf": conf, "n": n, "preambles": pre, "cc": cc, "sap": sap.name, "fmt": fmt, "nblocks": 0, "poc": -1, "payload": ""}})
@@ -232,6 +233,12 @@ class C07(Check):
             pos[sk] = [qi, bi]
             if len(res["viol"]) >= 4:
                 break
+        # an application that collects what it is handed and looks at it after the whole session (it keeps the list objects, it does not copy them)
+        for copy_at_callback, kept, kind in rx.primary.held:
+            if len(kept) != len(copy_at_callback) or any(a is not b for a, b in zip(kept, copy_at_callback)):
+                res.violate("C07.payload", "handed-over-list-changed-later", f"the blocks list handed over by {kind} held {len(copy_at_callback)} blocks when the notification was "
+                            f"delivered and holds {len(kept)} at the end of the session: the library changed it after the callback returned")
+                break
         res["ops"] = nb_total
         res["sim_time"] = nb_total * 0.03
         res["digest"] = rx.log.digest()
@@ -349,7 +356,7 @@ class C08(Check):
             if f.random() < 0.5:
                 cbs = ["started", "data_ended", "voice_ended"]
                 on = [c for c in cbs if f.random() < 0.6] or [f.choice(cbs)]
-                knobs["raising_observer"] = {"on": on, "pos": f.randrange(2), "exc": f.choice(["ValueError", "KeyError", "RuntimeError", "AssertionError", "ZeroDivisionError", "ValueError", "SystemExit", "GeneratorExit", "CancelledError"])}
+                knobs["raising_observer"] = {"on": on, "pos": f.randrange(3), "exc": f.choice(["ValueError", "KeyError", "RuntimeError", "AssertionError", "ZeroDivisionError", "ValueError", "SystemExit", "GeneratorExit", "CancelledError"])}
         ntx = k.choice([1, 2, 3, 4, 6, 8])
         scale = k.random() < 0.01
         if scale:
